@@ -161,6 +161,10 @@ class UnknownModuleError(ImportError):
     pass
 
 
+# Modules whose reload is in progress (``_xreload_module``): name -> module.
+_MODULES_BEING_RELOADED = {}
+
+
 def livepatch(old, new, modname=None,
               visit_stack=(), cache=None, assume_type=None,
               heed_hook=True):
@@ -473,6 +477,15 @@ def _livepatch__class(oldclass, newclass, modname, cache, visit_stack):
     for newbase in newclass.__bases__:
         oldbase = old_bases_by_name.get(
             (newbase.__module__, newbase.__name__))
+        if oldbase is None and newbase.__module__ == modname:
+            # A base that the class gains.  If the module being reloaded
+            # already has a class of that name, that one gets livepatched.
+            oldmod = _MODULES_BEING_RELOADED.get(modname)
+            candidate = getattr(oldmod, "__dict__", {}).get(newbase.__name__)
+            if (isinstance(candidate, type) and
+                candidate.__module__ == newbase.__module__ and
+                candidate.__name__ == newbase.__name__):
+                oldbase = candidate
         if oldbase is not None:
             newbase = livepatch(oldbase, newbase, modname=modname,
                                 cache=cache, visit_stack=visit_stack)
@@ -740,8 +753,12 @@ def _xreload_module(module, filename, force=False):
         # ``ModuleType``.
         assume_type = types.ModuleType
         # Livepatch the module.
-        result = livepatch(module, new_mod, module.__name__,
-                           assume_type=assume_type)
+        _MODULES_BEING_RELOADED[module.__name__] = module
+        try:
+            result = livepatch(module, new_mod, module.__name__,
+                               assume_type=assume_type)
+        finally:
+            _MODULES_BEING_RELOADED.pop(module.__name__, None)
         sys.modules[module.__name__] = result
     except:
         # Either the module failed executing or the livepatch failed.
